@@ -307,6 +307,12 @@ func (m *RWMutex) RUnlock() {
 	m.mu.Unlock()
 }
 
+// Pair is a compiled function with two results and a fault point inside.
+func Pair(i int) (int, int) {
+	Fault("pair")
+	return i, i + 1
+}
+
 // Try is a compiled function that calls f and contains its panic, as test runners, HTTP
 // servers and the like do.
 func Try(f func()) (rec interface{}) {
@@ -355,6 +361,7 @@ func init() {
 			"NewMutex":       reflect.ValueOf(NewMutex),
 			"Rec3":           reflect.ValueOf(Rec3),
 			"Try":            reflect.ValueOf(Try),
+			"Pair":           reflect.ValueOf(Pair),
 			"NewRWMutex":     reflect.ValueOf(NewRWMutex),
 		},
 		Types: map[string]reflect.Type{
